@@ -125,14 +125,14 @@ Print Assumptions C04_assign_from_view_value.
    announced number of them (val_dom), extensions of the view's rank with the view's number of elements, offset k =
    address of the k-th element of v.elements(), and distinct positions are distinct cells (what a destination of
    view-to-view assignment needs to be written exactly).  Names qualified: View and Life both define dom_op / nel. *)
-From BM Require Model.View Model.Spec Model.Iter Model.Assign Proofs.ViewProofs2 Proofs.LifeViewCompose.
+From BM Require Model.View Model.Spec Model.Iter Model.Assign Model.LifeView Proofs.ViewProofs2 Proofs.LifeViewCompose.
 Theorem C04_view_sources_compose :
   forall (sz : list Z) (ops : list BM.Model.View.op) (v : BM.Model.View.view) (as_ : arr),
     Forall (fun n => 0 <= n) sz -> Forall BM.Proofs.ViewProofs2.c01_op ops ->
     BM.Model.View.run_ops ops (BM.Model.View.root_view (zb sz)) = Some v ->
     BM.Model.Life.nel as_ = BM.Model.Spec.prod sz ->
     let a := BM.Model.Spec.run_spec ops (BM.Model.Spec.root_spec sz) in
-    let s := BM.Proofs.LifeViewCompose.view_vsrc v in
+    let s := BM.Model.LifeView.view_vsrc v in
        vsrc_dom as_ s
     /\ length (vs_offs s) = Z.to_nat (bnumel (vs_exts s))
     /\ length (vs_exts s) = length (BM.Model.Spec.asz a)
